@@ -2,7 +2,7 @@
    files and followed by Print Assumptions; Examples pin the statements to concrete
    inputs and show that the hypotheses are satisfiable. *)
 From Common Require Import Prelude.
-From C15 Require Import Model Proofs ProofsCodec ProofsFixed ProofsInto ProofsLife.
+From C15 Require Import Model Proofs ProofsCodec ProofsFixed ProofsInto ProofsLife ProofsHist.
 Local Open Scope Z_scope.
 
 (* ================================================================= round trip *)
@@ -285,3 +285,56 @@ Proof.
   split; [repeat constructor; vm_compute; try discriminate; reflexivity|].
   vm_compute. repeat split; reflexivity.
 Qed.
+
+(* ===================================== readers and a writer over one shared buffer *)
+
+(* reader_sees_later_writes: a reader that has consumed everything (whenever it was constructed);
+   the writer appends bs to the shared buffer; now end() is false (unless bs is empty), reading
+   len bs bytes returns exactly bs, and end() is true again *)
+Theorem reader_sees_later_writes : forall st k c bs,
+  nth_error (h_curs st) k = Some c -> c = len (h_buf st) -> len (h_buf st) + len bs < 2 ^ 64 ->
+  let st1 := fst (h_step st (HWrite (Some bs) (len bs))) in
+  h_buf st1 = h_buf st ++ bs /\
+  snd (h_step st1 (HEnd k)) = HEndIs (len bs =? 0) /\
+  h_step st1 (HRead k true (len bs)) =
+    ({| h_buf := h_buf st ++ bs; h_curs := set_nth (h_curs st) k (c + len bs) |}, HBytes bs) /\
+  snd (h_step (fst (h_step st1 (HRead k true (len bs)))) (HEnd k)) = HEndIs true.
+Proof. exact ProofsHist.reader_sees_later_writes. Qed.
+Print Assumptions reader_sees_later_writes.
+
+(* end() <-> cursor = CURRENT length of the shared buffer *)
+Theorem end_iff_current_length : forall st k c,
+  nth_error (h_curs st) k = Some c -> 0 <= c <= len (h_buf st) ->
+  exists b, snd (h_step st (HEnd k)) = HEndIs b /\ (b = true <-> c = len (h_buf st)).
+Proof. exact ProofsHist.end_iff_current_length. Qed.
+Print Assumptions end_iff_current_length.
+
+(* the bounds theorems over the current length: never outside the buffer; throws iff the request
+   extends past what the buffer holds NOW *)
+Theorem hist_read_in_bounds : forall st k c mem size,
+  nth_error (h_curs st) k = Some c -> 0 <= size -> 0 <= c ->
+  snd (h_step st (HRead k mem size)) <> HOob /\
+  (c <= len (h_buf st) -> (snd (h_step st (HRead k mem size)) = HThrow <-> c + size > len (h_buf st))).
+Proof. exact ProofsHist.hist_read_in_bounds. Qed.
+Print Assumptions hist_read_in_bounds.
+
+(* every history of writes, reader constructions, reads, views and end() calls: the cursors stay
+   inside the current buffer and no step leaves it; the buffer only grows by appending *)
+Theorem hist_step_inv : forall st op,
+  h_inv st -> hop_ok st op ->
+  h_inv (fst (h_step st op)) /\ snd (h_step st op) <> HOob /\
+  (exists tail, h_buf (fst (h_step st op)) = h_buf st ++ tail).
+Proof. exact ProofsHist.h_step_inv. Qed.
+Print Assumptions hist_step_inv.
+
+Theorem hist_never_oob : forall ops st,
+  h_inv st -> hops_ok st ops -> h_inv (fst (h_trace st ops)) /\ ~ In HOob (snd (h_trace st ops)).
+Proof. exact ProofsHist.hist_never_oob. Qed.
+Print Assumptions hist_never_oob.
+
+(* the reader is constructed on the empty buffer, "AB" is written, the reader reads it; a second
+   reader constructed later starts at 0 *)
+Example shared_buffer_example :
+  snd (h_trace h_init [HNew; HWrite (Some [65; 66]%N) 2; HEnd 0; HRead 0 true 2; HEnd 0; HNew; HRead 1 true 1]) =
+  [HReader 0; HOk; HEndIs false; HBytes [65; 66]%N; HEndIs true; HReader 1; HBytes [65%N]].
+Proof. vm_compute. reflexivity. Qed.
